@@ -1,13 +1,35 @@
 import Lean.Data.Json
-import ActsModel.Gen.State
-open Lean
+import ActsModel.Driver.Util
+import ActsModel.Spec.Lifecycle
+open Lean Acts Acts.Driver
 
-partial def loop (h : IO.FS.Stream) : IO Unit := do
+/-- C02: evaluate the lifecycle monitor on a transition trace `[[key, old, new], …]` -/
+def c02Monitor (req : Json) : Json :=
+  let trs : List Spec.Tr := (jarr req "trace").toList.map fun t =>
+    let a := asArr t
+    { key := asStr a[0]!, old := Gen.TaskState.ofStr (asStr a[1]!), new := Gen.TaskState.ofStr (asStr a[2]!) }
+  let bad := Spec.firstIllegal [] 0 trs
+  let gap := Spec.firstGap [] 0 trs
+  Json.mkObj [("ok", Json.bool (bad.isNone && gap.isNone)), ("illegal", optNat bad), ("gap", optNat gap)]
+
+def dispatch (req : Json) : Json :=
+  match jstr req "cmd" with
+  | "c02.monitor" => c02Monitor req
+  | "ping" => Json.mkObj [("pong", Json.bool true)]
+  | c => Json.mkObj [("error", Json.str s!"unknown cmd {c}")]
+
+partial def loop (h : IO.FS.Stream) (out : IO.FS.Stream) : IO Unit := do
   let line ← h.getLine
   if line.isEmpty then return ()
-  match Json.parse line with
-  | .ok j => IO.println (j.compress)
-  | .error e => IO.println s!"err {e}"
-  loop h
+  if line.trimAscii.isEmpty then
+    loop h out
+  else
+    match Json.parse line with
+    | .ok j => out.putStrLn (dispatch j).compress
+    | .error e => out.putStrLn (Json.mkObj [("error", Json.str s!"parse: {e}")]).compress
+    loop h out
 
-def main : IO Unit := do loop (← IO.getStdin)
+def main : IO Unit := do
+  let out ← IO.getStdout
+  loop (← IO.getStdin) out
+  out.flush
